@@ -1,6 +1,6 @@
 #!/venv/bin/python
 """Evaluate a seeded change produced by a sub-agent.
-usage: seed_eval.py <seed-name> <agent-worktree> [check ids ...]
+usage: seed_eval.py <seed-name> <agent-worktree | dir holding patch.diff+demo.py+meta.json> [check ids ...]
 Confirms in a FRESH scratch worktree of /repo HEAD: patch applies, pinned suite passes, demo fails with / passes without the
 change; runs the given checks (default: the property's own check) against the patched tree; stores everything under
 /verif/seeded/<seed-name>/ ; removes the scratch worktree."""
@@ -8,13 +8,16 @@ import json, os, shutil, subprocess, sys, tempfile
 
 name, agent_wt = sys.argv[1], sys.argv[2]
 src = os.path.join(agent_wt, "_seed")
+direct = os.path.exists(os.path.join(agent_wt, "patch.diff"))  # second form: <dir> holds patch.diff, demo.py, meta.json itself
+if direct:
+    src = agent_wt
 meta = json.load(open(os.path.join(src, "meta.json")))
 prop = meta["property"]
 checks = sys.argv[3:] or [prop]
 out = os.path.join("/verif/seeded", name)
 os.makedirs(out, exist_ok=True)
 # regenerate the patch from the agent's worktree (authoritative), relative to /repo HEAD
-patch = subprocess.run(["git", "-C", agent_wt, "diff", "HEAD", "--", "sigma"], capture_output=True, text=True).stdout
+patch = open(os.path.join(src, "patch.diff")).read() if direct else subprocess.run(["git", "-C", agent_wt, "diff", "HEAD", "--", "sigma"], capture_output=True, text=True).stdout
 if not patch.strip():
     print("no change in", agent_wt); sys.exit(2)
 open(os.path.join(out, "patch.diff"), "w").write(patch)
@@ -26,6 +29,9 @@ try:
     def demo():
         os.makedirs(os.path.join(wt, "_seed"), exist_ok=True)
         shutil.copy(os.path.join(out, "demo.py"), os.path.join(wt, "_seed", "demo.py"))
+        for sub in ("A", "B"):  # demos written for _seed/<X>/demo.py may use relative paths
+            os.makedirs(os.path.join(wt, "_seed", sub), exist_ok=True)
+            shutil.copy(os.path.join(out, "demo.py"), os.path.join(wt, "_seed", sub, "demo.py"))
         p = subprocess.run(["/venv/bin/python", "_seed/demo.py"], cwd=wt, env=dict(os.environ, PYTHONPATH=wt), capture_output=True, text=True, timeout=600)
         return p.returncode, (p.stdout + p.stderr)[-400:]
     rc0, o0 = demo()
